@@ -382,7 +382,7 @@ def filter_and_replace_breaks_connected_to_end_events(
     events of the loop.
     :type loop: :class:`Loop`
     """
-    for break_event in loop.break_events:
+    for break_event in list(loop.break_events):
         # check if break event has any out edges to a dummy end event
         # or if it is not connected to any out events of the end events
         # that are not in the loop. If either of these is true we need to
@@ -435,7 +435,8 @@ def filter_and_replace_breaks_connected_to_end_events(
                     graph.add_edge(event, dummy_break_event)
                     graph.add_edge(dummy_break_event, break_event)
                     loop.break_events.add(dummy_break_event)
-            loop.break_events.remove(break_event)
+            if dummy_break_event in loop.break_events:
+                loop.break_events.remove(break_event)
 
 
 def remove_event_sets_mirroring_removed_edges(
